@@ -50,13 +50,25 @@ def harness(cfg, nprior, npieces):
         try:
             bm, top, lo, hi = B.make(E, cfg)
             for k in range(nprior):
-                a, b = B.sym_query(E, f'p{k}', lo, hi, Fraction(1 + k, 8) + lo.v, Fraction(5 + k, 8) + lo.v)
+                if c.get('prior_times'):
+                    a, b = [Fraction(v) for v in c['prior_times'][k]]
+                else:
+                    a, b = B.sym_query(E, f'p{k}', lo, hi, Fraction(1 + k, 8) + lo.v, Fraction(5 + k, 8) + lo.v)
                 bm(a, b, **kw)
             span = hi.v - lo.v
-            pts = [E.input(f'x{i}', lo.v + span * Fraction(i + 1, npieces + 2)) for i in range(npieces + 1)]
-            E.assume(pts[0] >= lo); E.assume(pts[-1] <= hi)
-            for p, q in zip(pts[:-1], pts[1:]):
-                E.assume(p < q)
+            if c.get('pinned'):
+                # single-split lemma: the partition is exactly one split of the whole (arbitrary) interval
+                x = E.input('x1', lo.v + span * Fraction(1, 3))
+                E.assume((x > lo) & (x < hi))
+                pts = [lo, x, hi]
+            elif c.get('times'):
+                from ..symx import CR
+                pts = [CR(Fraction(v), lift(Fraction(v))) for v in c['times']]
+            else:
+                pts = [E.input(f'x{i}', lo.v + span * Fraction(i + 1, npieces + 2)) for i in range(npieces + 1)]
+                E.assume(pts[0] >= lo); E.assume(pts[-1] <= hi)
+                for p, q in zip(pts[:-1], pts[1:]):
+                    E.assume(p < q)
             scal = []      # (label, node)
             for i, (p, q) in enumerate(zip(pts[:-1], pts[1:])):
                 r = bm(p, q, **kw)
@@ -191,16 +203,23 @@ def run_one(task):
 def tasks_for(tier):
     q = tier == 'quick'
     mp, to = (3000, 60000) if q else (60000, 300000)
+    F = Fraction
     T = [
-        # single-split lemma: arbitrary parent interval, supplied (W,H) ~ N(0, diag(h, h/12)), arbitrary split ratio
-        ('law', dict(levy='space-time', size=(1,), supply_W=True, supply_H=True, sym_ends=True, cache_size=0), 0, 2, mp, to),
+        # single-split lemma: arbitrary parent interval, parent (W,H) ~ N(0, diag(h, h/12)), arbitrary split point
+        ('law', dict(levy='space-time', size=(1,), supply_W=True, supply_H=True, sym_ends=True, cache_size=0, pinned=True), 0, 2, mp, to),
+        ('law', dict(levy='none', size=(1,), supply_W=True, sym_ends=True, cache_size=None, pinned=True), 0, 2, mp, to),
+        # top-level law (generated W, H) + one split, symbolic ends
+        ('law', dict(levy='space-time', size=(1,), sym_ends=True, pinned=True), 0, 2, mp, to),
+        ('law', dict(levy='davie', size=(2,), sym_ends=True, pinned=True, cache_size=1), 0, 2, mp, to),
+        # W-only partitions at symbolic points (deeper trees), symbolic ends / after a symbolic prior query
         ('law', dict(levy='none', size=(1,), supply_W=True, sym_ends=True, cache_size=None), 0, 2, mp, to),
-        # top-level law (generated W, H), symbolic ends
-        ('law', dict(levy='space-time', size=(1,), sym_ends=True), 0, 2, mp, to),
         ('law', dict(levy='none', size=(2,), sym_ends=True, cache_size=1), 0, 2, mp, to),
-        # after a symbolic prior query
         ('law', dict(levy='none', size=(1,), cache_size=45), 1, 2, mp, to),
-        ('law', dict(levy='space-time', size=(1,), cache_size=1), 1, 1, mp, to),
+        # deep trees with H: exact algebraic arithmetic at rational times (symbolic noise), history of two prior queries
+        ('law', dict(levy='space-time', size=(1,), cache_size=1, times=[F(1, 8), F(1, 3), F(5, 7), F(9, 10)],
+                     prior_times=[[F(1, 5), F(3, 5)], [F(2, 5), F(4, 5)]]), 2, 3, mp, to),
+        ('law', dict(levy='foster', size=(1,), cache_size=0, t0=F(-1, 2), t1=F(3, 2), times=[F(-1, 4), F(1, 3), F(1, 1)],
+                     prior_times=[[F(0), F(1, 2)]]), 1, 2, mp, to),
         ('levy', dict(levy='davie', size=(1, 2)), False, None, mp, to),
         ('levy', dict(levy='foster', size=(1, 2)), False, None, mp, to),
         ('levy', dict(levy='davie', size=(1, 2), sym_ends=True), True, None, mp, to),
@@ -208,12 +227,12 @@ def tasks_for(tier):
     ]
     if not q:
         T += [
-            ('law', dict(levy='space-time', size=(1,), cache_size=1), 1, 2, mp, to),
             ('law', dict(levy='none', size=(1,), cache_size=0), 2, 2, mp, to),
             ('law', dict(levy='none', size=(1,), cache_size=45), 1, 3, mp, to),
-            ('law', dict(levy='space-time', size=(2,), sym_ends=True), 0, 2, mp, to),
-            ('law', dict(levy='space-time', size=(1,), dt=0.25, cache_size=2), 1, 2, mp, to),
+            ('law', dict(levy='space-time', size=(2,), sym_ends=True, pinned=True, supply_W=True), 0, 2, mp, to),
             ('law', dict(levy='none', size=(1,), tol=0.1, halfway=True), 0, 2, mp, to),
+            ('law', dict(levy='space-time', size=(2,), cache_size=2, dt=0.25, times=[F(1, 16), F(1, 4), F(1, 2), F(3, 4), F(15, 16)],
+                         prior_times=[[F(1, 10), F(9, 10)], [F(3, 10), F(7, 10)]]), 2, 4, mp, to),
         ]
     return T
 
@@ -256,7 +275,8 @@ def run(ctx):
 
 
 def _jsonable(cfg):
-    return {k: (str(v) if isinstance(v, Fraction) else (list(v) if isinstance(v, tuple) else v)) for k, v in cfg.items()}
+    import json
+    return json.loads(json.dumps(cfg, default=str))
 
 
 def twin():
